@@ -22,6 +22,7 @@ structure Tok where
   subject : String
   audience : List String := []
   refresh : String := ""          -- refresh token issued together with it ("" = none)
+  issuer : String := ""           -- the issuer (`op.IssuerFromContext(ctx)`) it was created under
   expired : Bool := false
   revoked : Bool := false
   gone : Bool := false            -- removed from the table (rotation of its refresh token)
@@ -35,16 +36,23 @@ structure RTok where
   client : String
   subject : String
   access : String := ""           -- id of the access token issued together with it
+  issuer : String := ""           -- the issuer it was created under
   expired : Bool := false
   gone : Bool := false            -- removed from the table (revoked, rotated, session terminated)
   deriving DecidableEq, Repr, Inhabited
 
 def RTok.live (r : RTok) : Bool := !r.expired && !r.gone
 
+/-- `partitioned`: the provider derives the issuer from the request and the storage keeps its tenants apart
+    (refstore `MultiTenant`, the repo's example `NewMultiStorage`): a call only sees the records created under the issuer of its context -/
 structure St where
   toks : List Tok := []
   rtoks : List RTok := []
+  partitioned : Bool := false
   deriving Repr, Inhabited
+
+/-- does a storage call made under issuer `iss` see a record created under `recIss` -/
+def St.sees (s : St) (iss recIss : String) : Bool := !s.partitioned || recIss == iss
 
 /-- a token the endpoints may honour: an access token (by id) or a refresh token (by its string) -/
 inductive Ref
@@ -53,10 +61,10 @@ inductive Ref
   deriving DecidableEq, Repr, Inhabited
 
 /-- the table entries (what `s.tokens[id]` / `s.refresh[token]` find) -/
-def St.lookup (s : St) (id : String) : Option Tok := s.toks.find? fun t => t.id == id && !t.gone
-def St.lookupR (s : St) (token : String) : Option RTok := s.rtoks.find? fun r => r.token == token && !r.gone
-def St.liveTok (s : St) (id : String) : Option Tok := (s.lookup id).filter (·.live)
-def St.liveR (s : St) (token : String) : Option RTok := (s.lookupR token).filter (·.live)
+def St.lookup (s : St) (iss id : String) : Option Tok := s.toks.find? fun t => t.id == id && !t.gone && s.sees iss t.issuer
+def St.lookupR (s : St) (iss token : String) : Option RTok := s.rtoks.find? fun r => r.token == token && !r.gone && s.sees iss r.issuer
+def St.liveTok (s : St) (iss id : String) : Option Tok := (s.lookup iss id).filter (·.live)
+def St.liveR (s : St) (iss token : String) : Option RTok := (s.lookupR iss token).filter (·.live)
 
 def killTok (id : String) (x : Tok) : Tok := if x.id == id then { x with revoked := true } else x
 def dropR (token : String) (x : RTok) : RTok := if x.token == token then { x with gone := true } else x
@@ -81,14 +89,14 @@ structure ResIntrospection where
 namespace Res.St
 
 /-- `Storage.SetUserinfoFromToken(ctx, userinfo, tokenID, subject, origin)`: the token must be known, unrevoked, unexpired -/
-def SetUserinfoFromToken (s : St) (tokenID _subject : String) : Go.R ResUserInfo :=
-  match s.liveTok tokenID with
+def SetUserinfoFromToken (s : St) (iss tokenID _subject : String) : Go.R ResUserInfo :=
+  match s.liveTok iss tokenID with
   | some t => .ok { Subject := t.subject, tokenID := t.id }
   | none => .error "token is invalid"
 
 /-- `Storage.SetIntrospectionFromToken(ctx, resp, tokenID, subject, clientID)`: live token whose audience contains the caller -/
-def SetIntrospectionFromToken (s : St) (resp : ResIntrospection) (tokenID _subject clientID : String) : Go.R ResIntrospection :=
-  match s.liveTok tokenID with
+def SetIntrospectionFromToken (s : St) (iss : String) (resp : ResIntrospection) (tokenID _subject clientID : String) : Go.R ResIntrospection :=
+  match s.liveTok iss tokenID with
   | some t =>
     if t.audience.contains clientID then
       .ok { resp with Active := true, Subject := t.subject, ClientID := t.client, Audience := t.audience, tokenID := t.id }
@@ -96,45 +104,58 @@ def SetIntrospectionFromToken (s : St) (resp : ResIntrospection) (tokenID _subje
   | none => .error "token is invalid"
 
 /-- `Storage.GetRefreshTokenInfo(ctx, clientID, token)` = (userID, tokenID) -/
-def GetRefreshTokenInfo (s : St) (_clientID token : String) : Go.R (String × String) :=
-  match s.lookupR token with
+def GetRefreshTokenInfo (s : St) (iss _clientID token : String) : Go.R (String × String) :=
+  match s.lookupR iss token with
   | some r => .ok (r.subject, r.token)
   | none => .error "ErrInvalidRefreshToken"
 
 /-- `Storage.RevokeToken(ctx, tokenOrTokenID, userID, clientID)`: an access token id first, then a refresh token
     (which takes its access token with it); a foreign client is refused; unknown = nothing to do -/
-def RevokeToken (s : St) (tokenOrID _userID clientID : String) : St × Go.R Unit :=
-  match s.lookup tokenOrID with
+def RevokeToken (s : St) (iss tokenOrID _userID clientID : String) : St × Go.R Unit :=
+  match s.lookup iss tokenOrID with
   | some t =>
     if t.client != clientID then (s, .error "ErrInvalidClient")
     else ({ s with toks := s.toks.map (killTok tokenOrID) }, .ok ())
   | none =>
-    match s.lookupR tokenOrID with
+    match s.lookupR iss tokenOrID with
     | none => (s, .ok ())
     | some r =>
       if r.client != clientID then (s, .error "ErrInvalidClient")
-      else ({ toks := s.toks.map (killTok r.access), rtoks := s.rtoks.map (dropR tokenOrID) }, .ok ())
+      else ({ s with toks := s.toks.map (killTok r.access), rtoks := s.rtoks.map (dropR tokenOrID) }, .ok ())
 
 /-- `Storage.TokenRequestByRefreshToken`: known and unexpired -/
-def TokenRequestByRefreshToken (s : St) (token : String) : Go.R RTok :=
-  match s.liveR token with
+def TokenRequestByRefreshToken (s : St) (iss token : String) : Go.R RTok :=
+  match s.liveR iss token with
   | some r => .ok r
   | none => .error "ErrInvalidRefreshToken"
 
 /-- `Storage.TerminateSession(userID, clientID)`: every token of that session dies -/
-def TerminateSession (s : St) (subject client : String) : St :=
-  { toks := s.toks.map fun x => if x.subject == subject && x.client == client then { x with revoked := true } else x,
-    rtoks := s.rtoks.map fun x => if x.subject == subject && x.client == client then { x with gone := true } else x }
+def TerminateSession (s : St) (iss subject client : String) : St :=
+  { s with
+    toks := s.toks.map fun x => if x.subject == subject && x.client == client && s.sees iss x.issuer then { x with revoked := true } else x,
+    rtoks := s.rtoks.map fun x => if x.subject == subject && x.client == client && s.sees iss x.issuer then { x with gone := true } else x }
 
 /-- rotation at the refresh grant: the presented refresh token and its access token leave the tables -/
-def rotate (s : St) (token : String) : St :=
-  match s.lookupR token with
+def rotate (s : St) (iss token : String) : St :=
+  match s.lookupR iss token with
   | none => s
   | some r =>
-    { toks := s.toks.map fun x => if x.id == r.access then { x with gone := true } else x,
-      rtoks := s.rtoks.map (dropR token) }
+    { s with toks := s.toks.map fun x => if x.id == r.access then { x with gone := true } else x,
+             rtoks := s.rtoks.map (dropR token) }
 
 end Res.St
+
+/-- the storage as ONE request sees it: every `op.Storage` call of the request carries the request's context, and with it the
+    issuer the request is addressed to (`op.IssuerFromContext(ctx)`) -/
+structure Res.View where
+  st : Res.St := {}
+  iss : String := ""
+
+namespace Res.View
+def SetUserinfoFromToken (v : View) (tokenID subject : String) : Go.R ResUserInfo := v.st.SetUserinfoFromToken v.iss tokenID subject
+def SetIntrospectionFromToken (v : View) (resp : ResIntrospection) (tokenID subject clientID : String) : Go.R ResIntrospection :=
+  v.st.SetIntrospectionFromToken v.iss resp tokenID subject clientID
+end Res.View
 
 /-- the part of `op.Provider` its `AccessTokenVerifier(ctx)` method reads -/
 structure ResATProvider where
@@ -183,6 +204,7 @@ structure ResProvider where
   jtiOf : String → String := fun _ => ""                        -- oracle: the `jti` claim of its payload
   verifier : Verifier := {}                                     -- `AccessTokenVerifier(ctx)` for THIS request
   store : Res.St := {}
+  ctxIssuer : String := ""                                      -- `IssuerFromContext(ctx)` of THIS request, as the storage calls receive it
   -- what the request parsers read (client registrations, supported authentication methods, the JWT-profile verifier of THIS request)
   clientStore : Store := {}
   postSupported : Bool := false
@@ -193,7 +215,7 @@ structure ResProvider where
 namespace ResProvider
 def Crypto (p : ResProvider) : ResCrypto := ⟨p.decrypt⟩
 def AccessTokenVerifier (p : ResProvider) : Verifier := p.verifier
-def Storage (p : ResProvider) : Res.St := p.store
+def Storage (p : ResProvider) : Res.View := ⟨p.store, p.ctxIssuer⟩
 def Decoder (_ : ResProvider) : ResDecoder := {}
 def AuthMethodPostSupported (p : ResProvider) : Bool := p.postSupported
 def AuthMethodPrivateKeyJWTSupported (p : ResProvider) : Bool := p.pkjwtSupported
@@ -222,13 +244,14 @@ inductive ResWrite
 /-- the outside world of the revocation handlers: the storage and what has been written to the ResponseWriter -/
 structure ResWorld where
   store : Res.St := {}
+  ctxIssuer : String := ""      -- the issuer in the context of the request being served
   out : List ResWrite := []
   deriving Repr, Inhabited
 
 namespace ResWorld
-def GetRefreshTokenInfo (w : ResWorld) (clientID token : String) : Go.R (String × String) := w.store.GetRefreshTokenInfo clientID token
+def GetRefreshTokenInfo (w : ResWorld) (clientID token : String) : Go.R (String × String) := w.store.GetRefreshTokenInfo w.ctxIssuer clientID token
 def RevokeToken (w : ResWorld) (tokenOrID userID clientID : String) : ResWorld × Go.R Unit :=
-  let (s, r) := w.store.RevokeToken tokenOrID userID clientID
+  let (s, r) := w.store.RevokeToken w.ctxIssuer tokenOrID userID clientID
   ({ w with store := s }, r)
 end ResWorld
 
